@@ -185,12 +185,14 @@ def run_history(case):
                 if kids:
                     t = pick(kids).entity_type
                     other = wss[1]
-                    free = t.uid not in other_type_ids
                     nt = t.copy(workspace=other)
-                    if free and nt.uid != t.uid:
-                        bad = f"{tag}: a type copied into another workspace got a fresh identifier although its own was free there"
-                    if not free and nt.uid == t.uid:
+                    # judged on what is alive *after* the copy (the harness's own bookkeeping cannot know which types a removal
+                    # in the other workspace let go of): the identifier is kept exactly when no other live type holds it
+                    twins = [x for x in other.types if x.uid == t.uid and x is not nt]
+                    if nt.uid == t.uid and twins:
                         bad = f"{tag}: two types of the other workspace share identifier {t.uid}"
+                    if nt.uid != t.uid and not twins:
+                        bad = f"{tag}: a type copied into another workspace got a fresh identifier although its own was free there"
                     other_type_ids.add(nt.uid)
                     kept_types.append(nt)  # types are weakly registered: the harness keeps them alive on purpose
                     bad = bad or _check(other, tag + " [other workspace]")
